@@ -266,6 +266,11 @@ def verify_function(qualname, opts=None):
     except KeyError as e:
         rep.status = "SPEC-INAPPLICABLE"
         rep.reason = f"not found: {e}"
+    except z3.Z3Exception as e:
+        # a value that does not fit the declared sort of a container / field (e.g. a dict key of another shape): the
+        # code no longer matches the types the sidecar declares - undecided, not a checker failure
+        rep.status = "SPEC-INAPPLICABLE"
+        rep.reason = f"a value does not fit the types declared in the contract: {str(e)[:200]}"
     except Exception as e:  # engine crash: checker error, never a violation
         rep.status = "ERROR"
         rep.reason = f"{type(e).__name__}: {e}\n{traceback.format_exc(limit=-12)}"
